@@ -369,11 +369,15 @@ theorem step_pinv (cfg : Config S) (P : NodeId → Proto S σ) (w : World S σ)
         · exact finalise_pinv cfg P _ hs
         · exact hs
 
+theorem initWith_pinv (cfg : Config S) (P : NodeId → Proto S σ) (pre : List (NodeId × Prog S σ)) :
+    PInv (initWith cfg P pre) :=
+  initWith_induction (C := fun w => PInv w) (init_pinv cfg P) (fun n p w h => runProg_pinv cfg n p w h) pre
+
 theorem reachable_pinv {cfg : Config S} (hdt : 0 ≤ cfg.dt) {P : NodeId → Proto S σ} {w : World S σ}
     (h : Reachable cfg P w) : PInv w := by
-  obtain ⟨n, rfl⟩ := h
+  obtain ⟨pre, n, rfl⟩ := h
   suffices ∀ n (w : World S σ), WInv w → PInv w → WInv (steps cfg P n w) ∧ PInv (steps cfg P n w) from
-    (this n _ (init_inv cfg P hdt) (init_pinv cfg P)).2
+    (this n _ (initWith_inv cfg P hdt pre) (initWith_pinv cfg P pre)).2
   intro n
   induction n with
   | zero => intro w hw hp; exact ⟨hw, hp⟩
